@@ -18,11 +18,13 @@ import (
 	"os"
 	"os/exec"
 	"path/filepath"
+	"strings"
 
 	"github.com/linuxboot/fiano/pkg/compression"
 
 	"verif/harness/core"
 	hu "verif/harness/props/uefi"
+	ue "verif/harness/props/uefiedit"
 )
 
 func le(n int, v uint64) []byte {
@@ -289,17 +291,17 @@ func innerPayloads(r *rand.Rand) [][]byte {
 	lz, _ := (&compression.LZMA{}).Encode(joinSecs(plainSec(0x19, []byte("nested payload"))))
 	return [][]byte{
 		joinSecs(pe, ui),
-		joinSecs(plainSec(0x17, small), ui),                     // nested volume
-		joinSecs(guidedSec(guidLZMA, 24, 1, lz), ui),            // compression inside compression
-		{0, 0, 0, 0x19},                                         // a zero-size section (§8 new: endless loop)
-		{4, 0, 0, 0x19, 0, 0, 0, 0x19},                          // … after a well-formed one
-		{0xFF, 0xFF, 0xFF, 0x19, 0, 0, 0, 0},                    // extended size 0
-		{1, 0, 0, 0x19},                                         // size smaller than the header
+		joinSecs(plainSec(0x17, small), ui),                       // nested volume
+		joinSecs(guidedSec(guidLZMA, 24, 1, lz), ui),              // compression inside compression
+		{0, 0, 0, 0x19},                                           // a zero-size section (§8 new: endless loop)
+		{4, 0, 0, 0x19, 0, 0, 0, 0x19},                            // … after a well-formed one
+		{0xFF, 0xFF, 0xFF, 0x19, 0, 0, 0, 0},                      // extended size 0
+		{1, 0, 0, 0x19},                                           // size smaller than the header
 		{3, 0, 0, 0x19, 9, 9, 9, 9, 8, 0, 0, 0x15, 0x41, 0, 0, 0}, // short RAW, then a UI section
-		{0x10, 0, 0, 0x02},                                      // GUID-defined, truncated sub-header
-		append(secHdr(0x17, 4+8), rep(0, 8)...),                 // volume image too small
-		rep(0xFF, 16),                                           // erased
-		{},                                                      // empty output
+		{0x10, 0, 0, 0x02},                                        // GUID-defined, truncated sub-header
+		append(secHdr(0x17, 4+8), rep(0, 8)...),                   // volume image too small
+		rep(0xFF, 16),                                             // erased
+		{},                                                        // empty output
 	}
 }
 
@@ -730,6 +732,20 @@ func fuzzCorpus() [][]byte {
 }
 
 func (prop) Gen(r *rand.Rand, tier string) []core.Case {
+	cs := genAll(r, tier)
+	if only := os.Getenv("C05_ONLY"); only != "" { // debugging knob: one operation only
+		var out []core.Case
+		for _, c := range cs {
+			if c.Op == only || (strings.HasPrefix(only, "kind:") && strings.HasPrefix(c.Kind, only[5:])) {
+				out = append(out, c)
+			}
+		}
+		return out
+	}
+	return cs
+}
+
+func genAll(r *rand.Rand, tier string) []core.Case {
 	thorough := tier == "thorough"
 	var cs []core.Case
 	pick := func(q, t int) int {
@@ -865,6 +881,15 @@ func (prop) Gen(r *rand.Rand, tier string) []core.Case {
 		_ = i
 		cs = append(cs, hexCase("fuzz-corpus", "parse", b, tier))
 	}
+	// 7. assemble after edit operations: the case streams of the C02 harness (read-only), every case ends
+	//    with (or contains) `save`, which is Assemble on the edited tree
+	for _, c := range append(append(ue.ExhaustiveCases(pick(1, 2)), ue.WrapperCases()...), ue.RandomCases(r, pick(250, 6000), true)...) {
+		c.Kind = "edit-" + c.Kind
+		c.Op = "asmrun"
+		c.Args["tier"] = tier
+		cs = append(cs, c)
+	}
+
 	for i := 0; i < pick(40, 1000); i++ {
 		b := make([]byte, r.Intn(600))
 		r.Read(b)
